@@ -628,6 +628,10 @@ where
 
         let (topic_name, consumed) = MqttString::decode(&data_arc[cursor..])?;
         cursor += consumed;
+        if topic_name.as_str().is_empty() {
+            // the builder refuses an empty topic name as well ([MQTT-4.7.3-1])
+            return Err(MqttError::MalformedPacket);
+        }
 
         let qos = match qos_value {
             0 => Qos::AtMostOnce,
